@@ -86,6 +86,7 @@ func cmdCheck(args []string) int {
 		seed, _ = strconv.ParseInt(s, 10, 64)
 	}
 	start := time.Now()
+	checkProp = prop
 	b, err := os.ReadFile(filepath.Join(verifDir, "checks", prop+".json"))
 	if err != nil {
 		fmt.Println("no check spec:", err)
@@ -289,7 +290,7 @@ func cmdCheck(args []string) int {
 					continue
 				}
 				reported[key] = true
-				dir := filepath.Join(verifDir, "replays", prop, sanitize(r.Job+"-"+paramStr(r.Params)+"-"+q.Label))
+				dir := filepath.Join(outDir, "replays", prop, sanitize(r.Job+"-"+paramStr(r.Params)+"-"+q.Label))
 				if *noReplay {
 					fmt.Printf("SAT (not replayed) %s[%s] %s %q model=%v\n", r.Job, paramStr(r.Params), q.Kind, q.Label, q.Model)
 					violations++
@@ -367,9 +368,9 @@ func cmdCheck(args []string) int {
 			"inductive_invariant_broken": keys(invBroken),
 		},
 	}
-	os.MkdirAll(filepath.Join(verifDir, "evidence"), 0755)
+	os.MkdirAll(filepath.Join(outDir, "evidence"), 0755)
 	eb, _ := json.MarshalIndent(ev, "", " ")
-	os.WriteFile(filepath.Join(verifDir, "evidence", prop+".json"), eb, 0644)
+	os.WriteFile(filepath.Join(outDir, "evidence", prop+".json"), eb, 0644)
 	fmt.Printf("%s tier=%s instances=%d obligations=%d discharged=%d reach-labels=%d/%d violations=%d problems=%d solver=%.1fs wall=%.1fs\n",
 		prop, *tier, len(all), obligations, discharged, reachWitnessed, reachLabels, violations, len(problems), solverSecs, wall)
 	if violations > 0 {
